@@ -8,3 +8,6 @@ def register(claim):
     claim("C13", "Coq proof (Z arithmetic, string recogniser) + vm_compute correspondence",
           "Clock laws, inverse laws, CF offsets, constructor refusals and the exact characterisation of the ISO-period recogniser are Coq theorems over all integers/strings; the model is tied to timekeeper.py by differential evaluation of every API call on generated clocks and spellings.",
           BASE + "dt > 0; Unicode digits / trailing newline in ISO strings outside model and generator.", "DESIGN.md section 6 C13")
+    claim("C05", "Coq proof (invariant by induction over operation lists, lookup lemmas) + vm_compute correspondence",
+          "Invariant (pids strictly increasing, pid[k]>=k, <npid, aligned columns), exact-removal, value-preservation and never-reused theorems hold for every operation sequence (induction, no bound); the model is tied to state.py by replaying random and exhaustive short operation sequences and comparing the full state after every operation.",
+          BASE + "item assignment length-preserving (hypothesis op_wf); values integer-coded.", "DESIGN.md section 6 C05")
